@@ -212,10 +212,14 @@ Definition encode_all (new_style : bool) (ks : list econ) : val :=
 Definition encode_all_present (new_style : bool) (ks : list econ) : val :=
   VL (map vdesc (flat_map (if new_style then encode_new_present else encode_old_present) ks)).
 
+(* a value formed with a +-1e30 sentinel is not exact in binary64: not compared *)
+Definition vbig (v : Q) : val :=
+  if Qle_bool (INF / 10) v || Qle_bool v (- (INF / 10)) then VN else VQ v.
+
 (* probes of _confunc / _congradfunc: all (dbl, idx) pairs of one constraint at values cv *)
 Definition probe (grads new_style : bool) (k : econ) (cv : list Q) : val :=
   VL (map (fun j =>
-        VL ([VQ (confunc k false j (nth j cv 0)); VQ (confunc k true j (nth j cv 0))] ++
+        VL ([vbig (confunc k false j (nth j cv 0)); vbig (confunc k true j (nth j cv 0))] ++
             (if grads then
                if new_style then [vqs (congrad_new (nth j (e_rows k) [])); vqs (congrad_new (nth j (e_rows k) []))]
                else [vqs (congrad k false j (nth j (e_rows k) [])); vqs (congrad k true j (nth j (e_rows k) []))]
